@@ -608,10 +608,184 @@ def task_exceptions(pr, repo):
     pr.explore(ex, t_arg, 'check_coo_arg_exception')
 
 
+def task_exception_dispatch(pr, repo):
+    """XD: check_exceptions is symmetric in the order of the two groups and returns a non-negative value from the declared
+    exception parameters (the sub-routines for COO-ARG / COO-COO are under contract in task_exceptions)."""
+    ex = Executor(repo)
+    for n in ('check_exceptions', 'check_coo_his_exception', 'check_oco_his_exception', 'check_cys_his_exception',
+              'check_cys_cys_exception', 'check_buried', 'electrostatic_interaction', 'check_coulomb_pair'):
+        pr.under_contract(repo.func(E + n))
+    import ast as _ast
+    asg = repo.module('propka.energy').assigns
+    BUR = {k: _ast.literal_eval(asg[k]) for k in ('COMBINED_NUM_BURIED_MAX', 'SEPARATE_NUM_BURIED_MAX')}
+    fi = repo.func(E + 'check_exceptions')
+    types = ['COO', 'ARG', 'HIS', 'CYS', 'OCO', 'LYS']
+    names = {'COO_HIS_exception': ('COO', 'HIS'), 'OCO_HIS_exception': ('OCO', 'HIS'), 'CYS_HIS_exception': ('CYS', 'HIS'),
+             'CYS_CYS_exception': ('CYS', 'CYS')}
+    for i, t1 in enumerate(types):
+        for t2 in types[i:]:
+            def thunk(ex, ctx, t1=t1, t2=t2):
+                pv = {k: R(k) for k in names}
+                for v in pv.values():
+                    ctx.assume(v >= 0)          # ground fact GR(exception parameters >= 0)
+                p = record('P', None, **pv)
+                version = record('version', None, parameters=p)
+                g1 = record('g1', None, type=t1, num_volume=I('nv1'))
+                g2 = record('g2', None, type=t2, num_volume=I('nv2'))
+                ctx.assume(And(I('nv1') >= 0, I('nv2') >= 0))
+                sub = {}
+
+                def helper(kind):
+                    def f(ex_, ctx_, fi_, a, k, so):
+                        # contract of the geometric sub-routine: a result that depends on the (COO, partner) pair only
+                        key = (kind, a[0].name, a[1].name)
+                        if key not in sub:
+                            v = R('val_%s' % kind)
+                            ctx_.assume(v >= 0, kind='def')
+                            sub[key] = (B('exc_%s' % kind), v)
+                        return sub[key]
+                    return f
+                ex.contracts[E + 'check_coo_arg_exception'] = helper('coo_arg')
+                ex.contracts[E + 'check_coo_coo_exception'] = helper('coo_coo')
+                e12, v12 = ex.call_function(fi, [version, g1, g2])
+                e21, v21 = ex.call_function(fi, [version, g2, g1])
+                if t1 == t2 == 'COO':
+                    # the COO-COO routine is called with the groups in the given order; its own symmetry is geometric
+                    # (closest pair of the same two atom lists) and is not claimed here
+                    ctx.oblige('XD[COO, COO]: the COO-COO routine decides', len(sub) == 2)
+                    return
+                conj = [Sym(to_bool(e12)) == Sym(to_bool(e21))]
+                if v12 is None or v21 is None:
+                    conj.append(v12 is None and v21 is None and e12 is False)
+                else:
+                    conj += [v12 == v21, v12 >= 0]
+                pair = {t1, t2}
+                want = [k for k, tt in names.items() if set(tt) == pair]
+                if want:
+                    conj.append(v12 == pv[want[0]])
+                    nv = I('nv1') + I('nv2')
+                    buried = Not(And(nv <= BUR['COMBINED_NUM_BURIED_MAX'],
+                                     Or(I('nv1') <= BUR['SEPARATE_NUM_BURIED_MAX'], I('nv2') <= BUR['SEPARATE_NUM_BURIED_MAX'])))
+                    conj.append(Sym(to_bool(e12)) == Sym(to_bool(buried)))
+                elif pair == {'COO', 'ARG'}:
+                    conj.append(len(sub) == 1)
+                else:
+                    conj.append(e12 is False and v12 is None)
+                ctx.oblige('XD[%s, %s]: same verdict and value for both orders of the pair; value = the declared exception parameter '
+                           '(>= 0), applied iff the pair is buried; no exception for other pairs' % (t1, t2), And(*conj))
+            pr.explore(ex, thunk, 'check_exceptions %s/%s' % (t1, t2))
+
+    def t_elec(ex, ctx):
+        p = sym_params(ctx)
+        g1 = record('g1', None, titratable=B('t1'), num_volume=I('nv1'))
+        g2 = record('g2', None, titratable=B('t2'), num_volume=I('nv2'))
+        ctx.assume(And(I('nv1') >= 0, I('nv2') >= 0))
+        dist = R('dist')
+        ctx.assume(dist >= 0)
+        from pyvc.core import Builtin
+        version = record('version', None, parameters=p)
+        cp = repo.func(E + 'check_coulomb_pair')
+        version.attrs['check_coulomb_pair'] = Builtin('ccp', lambda ex_, a, b, d: ex_.call_function(cp, [p, a, b, d]))
+        w = R('weight')
+        ctx.assume(And(w >= 0, w <= 1))           # contract of calculate_pair_weight (task_scalars)
+        cv = R('coulomb')
+        ctx.assume(cv >= 0)                       # contract of coulomb_energy (task_scalars)
+        version.attrs['calculate_pair_weight'] = Builtin('cpw', lambda ex_, a, b: w)
+        version.attrs['calculate_coulomb_energy'] = Builtin('cce', lambda ex_, d, ww: cv)
+        f = repo.func(E + 'electrostatic_interaction')
+        r12 = ex.call_function(f, [g1, g2, dist, version])
+        r21 = ex.call_function(f, [g2, g1, dist, version])
+        # at dist == coulomb_cutoff2 exactly the Coulomb energy is 0 (task_scalars), so either verdict is right there
+        inner = And(B('t1'), B('t2'), dist < p.attrs['coulomb_cutoff2'], I('nv1') + I('nv2') >= p.attrs['Nmin'])
+        outer = And(B('t1'), B('t2'), dist <= p.attrs['coulomb_cutoff2'], I('nv1') + I('nv2') >= p.attrs['Nmin'])
+        if r12 is None or r21 is None:
+            ctx.oblige('EI: no Coulomb term only if a group is not titratable, the distance reaches coulomb_cutoff2 or the pair is '
+                       'too exposed (same verdict for both orders)', And(r12 is None and r21 is None, Not(inner)))
+        else:
+            ctx.oblige('EI: a Coulomb term (>= 0, the same for both orders) only if both titratable, within coulomb_cutoff2, '
+                       'buried enough', And(outer, r12 == r21, r12 >= 0))
+    pr.explore(ex, t_elec, 'electrostatic_interaction')
+
+
+def task_version_dispatch(pr, repo):
+    """VD: the Version object the determinants go through forwards every call to the energy routine under contract above, with the
+    arguments in the order that routine expects (so the sign / bound contracts reach the determinant constructors)."""
+    ex = Executor(repo)
+    VM = 'propka.version.'
+    for n in ('Version.__init__', 'VersionA.__init__', 'Version.calculate_desolvation', 'Version.calculate_pair_weight',
+              'Version.hydrogen_bond_interaction', 'Version.calculate_side_chain_energy', 'Version.electrostatic_interaction',
+              'Version.calculate_coulomb_energy', 'Version.check_coulomb_pair', 'Version.calculate_backbone_reorganization',
+              'Version.check_exceptions', 'Version.setup_bonding_and_protonation', 'VersionA.get_hydrogen_bond_parameters',
+              'VersionA.get_backbone_hydrogen_bond_parameters'):
+        pr.under_contract(repo.func(VM + n))
+    want = {  # wrapper -> (routine, argument pattern); P = parameters, V = the version object, digits = wrapper arguments
+        'calculate_desolvation': ('propka.energy.radial_volume_desolvation', 'P0'),
+        'calculate_pair_weight': ('propka.energy.calculate_pair_weight', 'P01'),
+        'hydrogen_bond_interaction': ('propka.energy.hydrogen_bond_interaction', '01V'),
+        'calculate_side_chain_energy': ('propka.energy.hydrogen_bond_energy', '0124'),
+        'electrostatic_interaction': ('propka.energy.electrostatic_interaction', '012V'),
+        'calculate_coulomb_energy': ('propka.energy.coulomb_energy', '01P'),
+        'check_coulomb_pair': ('propka.energy.check_coulomb_pair', 'P012'),
+        'calculate_backbone_reorganization': ('propka.energy.backbone_reorganization', 'P0'),
+        'check_exceptions': ('propka.energy.check_exceptions', 'V01'),
+        'setup_bonding_and_protonation': ('propka.hydrogens.setup_bonding_and_protonation', '0'),
+    }
+    nargs = {'calculate_desolvation': 1, 'calculate_pair_weight': 2, 'hydrogen_bond_interaction': 2, 'calculate_side_chain_energy': 5,
+             'electrostatic_interaction': 3, 'calculate_coulomb_energy': 2, 'check_coulomb_pair': 3,
+             'calculate_backbone_reorganization': 1, 'check_exceptions': 2, 'setup_bonding_and_protonation': 1}
+    classes = ['VersionA'] if pr.tier == 'quick' else ['VersionA', 'SimpleHB', 'ElementBasedLigandInteractions']
+    for cname in classes:
+        for wname, (target, pattern) in want.items():
+            def thunk(ex, ctx, cname=cname, wname=wname, target=target, pattern=pattern):
+                params = record('P', None)
+                seen = []
+                for t in {v[0] for v in want.values()}:
+                    ex.contracts[t] = (lambda t: lambda ex_, ctx_, fi_, a, k, so: (seen.append((t, list(a), dict(k))), record('ret', None))[1])(t)
+                v = ex.instantiate(repo.cls(VM + cname), [params], {})
+                args = [record('arg%d' % i, None) for i in range(nargs[wname])]
+                ret = ex.call(ex.getattr(v, wname), args, {})
+                exp = [params if c == 'P' else v if c == 'V' else args[int(c)] for c in pattern]
+                ok = (len(seen) == 1 and seen[0][0] == target and not seen[0][2] and len(seen[0][1]) == len(exp)
+                      and all(x is y for x, y in zip(seen[0][1], exp)) and isinstance(ret, Obj) and ret.name == 'ret')
+                ctx.oblige('VD[%s.%s]: forwards to %s with arguments %s and returns its result' % (cname, wname, target, pattern), ok)
+            pr.explore(ex, thunk, 'version dispatch %s.%s' % (cname, wname))
+
+    def t_hb(ex, ctx):
+        dmax = R('sidechain_interaction')
+        calls = []
+        cut = record('cutoffs', None)
+
+        def get_value(ex_, a, b):
+            calls.append((a, b))
+            return [R('c0'), R('c1')]
+        from pyvc.core import Builtin
+        cut.attrs['get_value'] = Builtin('get_value', get_value)
+        co = {'HIS': [R('co_v'), R('co_1'), R('co_2')]}
+        nh = {'COO': [R('nh_v'), R('nh_1'), R('nh_2')]}
+        params = record('P', None, sidechain_interaction=dmax, sidechain_cutoffs=cut, backbone_CO_hydrogen_bond=co,
+                        backbone_NH_hydrogen_bond=nh)
+        v = ex.instantiate(repo.cls(VM + 'VersionA'), [params], {})
+        a1, a2 = record('a1', None, group_type='COO'), record('a2', None, group_type='HIS')
+        r = ex.call(ex.getattr(v, 'get_hydrogen_bond_parameters'), [a1, a2], {})
+        ctx.oblige('VD: side-chain H-bond parameters = (sidechain_interaction, cut-offs of the two GROUP TYPES from the pairwise table)',
+                   len(calls) == 1 and set(calls[0]) == {'COO', 'HIS'} and r[0] is dmax and len(r[1]) == 2)
+        for bt, gt, table in (('BBC', 'HIS', co), ('BBN', 'COO', nh), ('BBC', 'COO', None), ('BBN', 'HIS', None), ('COO', 'HIS', None)):
+            bb, at = record('bb', None, group_type=bt), record('at', None, group_type=gt)
+            r = ex.call(ex.getattr(v, 'get_backbone_hydrogen_bond_parameters'), [bb, at], {})
+            if table is None:
+                ok = r is None
+            else:
+                row = table[gt]
+                ok = r is not None and r[0] is row[0] and r[1][0] is row[1] and r[1][1] is row[2]
+            ctx.oblige('VD: backbone H-bond parameters [%s, %s]: C=O acceptors use the CO table, N-H donors the NH table, row of the '
+                       'partner group type as (value, [inner, outer]); no row -> no interaction' % (bt, gt), ok)
+    pr.explore(ex, t_hb, 'version H-bond parameters')
+
+
 def run(pr, repo):
     ground_facts(pr)
     pr.parallel([(task_scalars, ()), (task_desolvation, ()), (task_reorganization, ()), (task_coulomb_pairs, ()),
-                 (task_ion_backbone, ()), (task_iterative, ()), (task_exceptions, ()),
+                 (task_ion_backbone, ()), (task_iterative, ()), (task_exceptions, ()), (task_exception_dispatch, ()), (task_version_dispatch, ()),
                  # the signs fixed when a determinant is created must survive the temporary swaps of the coupling analysis:
                  # every swap is undone exactly (C02/C15 obligations on swap_interactions / transfer_determinant)
                  (C02.task_swap, ()), (C02.task_swap_once, ())])
